@@ -301,10 +301,16 @@ def run(R, only=None):
             ("select a.x, p.k from a left join p on a.x = p.k order by p.k", [(1, False)]), ("select p.k, a.x from p left join a on a.x = p.k order by p.k", [(0, False)]),
             ("select a.x, p.k, p.v from a join p on a.x = p.k order by p.k, a.x", [(1, False), (0, False)]),
             ("select a.x, p.k from a left join p on a.x = p.k order by p.k desc", [(1, True)]),
+            # two keyed tables (a merge join on disk) under ORDER BY either side's key
+            ("select p.k, q.k from p left join q on p.k = q.k order by q.k", [(1, False)]), ("select p.k, q.k from p left join q on p.k = q.k order by p.k", [(0, False)]),
+            ("select p.k, q.k, q.w from p join q on p.k = q.k order by q.k", [(1, False)]), ("select p.k, q.k from p left join q on p.k = q.k order by q.k limit 3", [(1, False)]),
         ])
         a_b, b_b = c02.gen_db(rng)
         steps = [{"sql": "create table p(k int primary key, v int)"}, {"sql": "create table a(x int, y int, s varchar)"},
-                 {"sql": "create table cc(a int, b int, v int, primary key(b, a))"}]
+                 {"sql": "create table cc(a int, b int, v int, primary key(b, a))"}, {"sql": "create table q(k int primary key, w int)"}]
+        qk = rng.sample(range(0, 13), rng.randint(0, 6))
+        if qk:
+            steps.append({"sql": "insert into q values " + ", ".join(f"({k}, {k % 4})" for k in qk)})
         ccrows = [(rng.randint(0, 5), rng.randint(0, 3), rng.randint(0, 9)) for _ in range(rng.randint(2, 9))]
         for part in (ccrows[: len(ccrows) // 2], ccrows[len(ccrows) // 2:]):
             if part:
